@@ -1,9 +1,9 @@
 ------------------------------- MODULE Gen_X05 -------------------------------
 (* Lookup sequences for the real table: (slot, offset) pairs; offset -2..2 = -1 Hz, -0.001 Hz, exact, +0.001 Hz, +1 Hz; slot -1 = zero / negative *)
 EXTENDS Naturals, Integers, Sequences, TLC, Json
-CONSTANTS D
+CONSTANTS D, Small
 VARIABLE hist
-Slots == {-1, 0, 1, 57, 58, 126, 127, 128}
+Slots == IF Small THEN {-1, 0, 57, 127, 128} ELSE {-1, 0, 1, 57, 58, 126, 127, 128}
 Asks == {<<s, o>> : s \in Slots, o \in {-2, -1, 0, 1, 2}}
 Init == hist = <<>>
 Next == Len(hist) < D /\ \E a \in Asks : hist' = Append(hist, a) /\ (Len(hist') = D => PrintT("@@" \o ToJson([seq |-> hist'])))
